@@ -31,20 +31,22 @@ Theorem C05_all_free_after_roundtrip :
   forall x, rel_all t m ls (acq_all t m ls f) x = f x.
 Proof. exact rel_acq_all. Qed.
 
-(* ---------------------------------------------------------------- every history (partial) *)
-(* The statement at full strength is  forall sc, wf_histb sc = true -> mon_C05 sc (model_obs sc) = true ; it is
-   evaluated on every generated scenario by the check.  Proved below, for EVERY fault-free history of any number of
-   threads over any collections, is the monitor [mon_C05p], which is [mon_C05] without one clause: that a call which is
-   cut because it has to wait issued no release by a non-holder before it waited (the big-step lemmas for a blocked
-   acquisition describe the hold table it leaves, not the cleanliness of its trace).  What is proved: no call that runs
-   to its end ever issues a release for a lock its thread does not hold (or in the wrong mode); dropping or unlocking a
-   guard releases every hold of that guard exactly once, releases nothing else, and leaves none of them held; a scoped
-   call (returning or unwinding) releases each of its leaves exactly once; and when no guard of the history is alive or
-   leaked any more, every lock is exactly as it was at the start (holds of other parties included). *)
+(* ---------------------------------------------------------------- every history *)
+(* For EVERY fault-free history of any number of threads over any collections (any holds of other parties at the start) the
+   monitor the check evaluates on the implementation holds of the model: no call — completed, unwinding, or cut because
+   it has to wait — ever issues a release for a lock its thread does not hold (or in the wrong mode); dropping or
+   unlocking a guard releases every hold of that guard exactly once, releases nothing else, and leaves none of them
+   held; a scoped call (returning or unwinding) releases each of its leaves exactly once; and when no guard of the history
+   is alive or leaked any more, every lock is exactly as it was at the start (holds of other parties included). *)
+Theorem C05_every_history :
+  forall sc, wf_histb sc = true -> mon_C05 sc (model_obs sc) = true.
+Proof. exact C05_all_histories_dec. Qed.
+Check C05_every_history : forall sc, wf_histb sc = true -> mon_C05 sc (model_obs sc) = true.
+
+(* an intermediate form (the monitor without the clause about calls that are cut), kept because its proof is the route *)
 Theorem C05_every_history_partial :
   forall sc, wf_histb sc = true -> mon_C05p sc (model_obs sc) = true.
 Proof. exact C05_all_histories_partial_dec. Qed.
-Check C05_every_history_partial : forall sc, wf_histb sc = true -> mon_C05p sc (model_obs sc) = true.
 
 (* the monitor of the check implies the proved one (so the proved one is not stronger than what the implementation is held to) *)
 Theorem C05_partial_is_weaker : forall sc obs, mon_C05 sc obs = true -> mon_C05p sc obs = true.
@@ -73,5 +75,6 @@ Proof. vm_compute. repeat split. Qed.
 
 Print Assumptions C05_guard_drop_exact.
 Print Assumptions C05_collection_unlock_exact.
+Print Assumptions C05_every_history.
 Print Assumptions C05_every_history_partial.
 Print Assumptions C05_hold_accounting.
